@@ -129,8 +129,7 @@ theorem exec_now (P : Params) (h : List Instr) (s : St) (hi : Inv s) : (exec P h
 theorem activate_now (t : Nat) (s : St) : (activate t s).now = t := by
   unfold activate
   generalize s.timers.filter (fun x => decide (x.deadline ≤ t)) = l
-  have : ∀ (l : List Timer) (u : St),
-      (l.foldl (fun s tm => pushEntry s ⟨tm.kind, tm.idx, tm.deadline, .timer⟩) u).now = u.now := by
+  have : ∀ (l : List Timer) (u : St), (l.foldl fire u).now = u.now := by
     intro l
     induction l with
     | nil => intro u; rfl
@@ -138,7 +137,7 @@ theorem activate_now (t : Nat) (s : St) : (activate t s).now = t := by
       intro u
       simp only [List.foldl_cons]
       rw [ih]
-      exact (keeps_pushEntry u _).2.1
+      exact (keeps_fire u a).2.1
   rw [this]
 
 /-- an own event of the module (repaired code) from a state in which only foreign wakes are pending, at an instant
